@@ -135,6 +135,8 @@ def iterations(recs):
                 cur["ev"].append(l[2:].split(" "))
             elif l.startswith("T "):
                 cur["term"] = l[2:]
+            elif l.startswith("V "):
+                cur["view"] = l[2:].split(" ") if len(l) > 2 else []
             elif l.startswith("XS "):
                 cur["xs"] = l[3:]
             elif l.startswith("XE "):
